@@ -66,6 +66,9 @@ type StepObs struct {
 	PostF    []chainhash.Hash   // after
 	Events   []EventObs
 	Disc     bool // the sender was disconnected by the client during the step
+	// WriteFailed: the harness made the block header store's WriteHeaders
+	// fail during this step (an injected database error: nothing written).
+	WriteFailed bool
 	Panic    string
 	ClockNow time.Time
 }
@@ -351,11 +354,17 @@ func (s *Session) SendHeaders(kind string, pi int, batch []*chaingen.Node, extra
 	msg := wire.NewMsgHeaders()
 	msg.Headers = hdrs
 	st.Events, st.Panic = s.runWithEvents(func() { s.BM.HandleHeaders(s.Peers[pi].SP, msg) })
+	st.WriteFailed = s.hooked.takeFailed()
 	if err := s.endStep(st); err != nil {
 		return st, &StoreErr{err}
 	}
 	return st, nil
 }
+
+// FailNextWrite makes the next WriteHeaders call of the block header store, as
+// the block manager sees it, fail without writing anything (an injected
+// database error). Disarmed at the end of the next SendHeaders step.
+func (s *Session) FailNextWrite() { s.hooked.armFail() }
 
 // SendInv delivers an inv message.
 func (s *Session) SendInv(pi int, hashes []chainhash.Hash) (*StepObs, error) {
@@ -464,6 +473,32 @@ type hookedBlockStore struct {
 	headerfs.BlockHeaderStore
 	mu             sync.Mutex
 	afterAncestors func()
+	failWrite      bool // armed: the next WriteHeaders fails
+	failed         bool // a WriteHeaders call was failed since takeFailed
+}
+
+func (h *hookedBlockStore) armFail() { h.mu.Lock(); h.failWrite = true; h.mu.Unlock() }
+
+// takeFailed disarms the fault and reports whether it fired.
+func (h *hookedBlockStore) takeFailed() bool {
+	h.mu.Lock()
+	defer h.mu.Unlock()
+	f := h.failed
+	h.failed, h.failWrite = false, false
+	return f
+}
+
+func (h *hookedBlockStore) WriteHeaders(hdrs ...headerfs.BlockHeader) error {
+	h.mu.Lock()
+	fail := h.failWrite
+	if fail {
+		h.failWrite, h.failed = false, true
+	}
+	h.mu.Unlock()
+	if fail {
+		return fmt.Errorf("injected: header index transaction failed")
+	}
+	return h.BlockHeaderStore.WriteHeaders(hdrs...)
 }
 
 func (h *hookedBlockStore) setAfterAncestors(f func()) {
